@@ -661,6 +661,8 @@ func checkC19(p *Prog, res *Result, tier string) {
 	res.rule("C19-R5", "no self-deadlock: a mutex is never (re)acquired exclusively on a path on which the same goroutine already holds it, directly or through a called repo function", 1)
 	res.rule("C19-R7", "no append onto a slice that belongs to a shared object (a field of a long-lived struct, a package variable) unless the result is stored back into that same place: with spare capacity the append writes into the shared array from whichever goroutine runs it", 10)
 	res.rule("C19-R8", "a goroutine that announces its end with a deferred WaitGroup.Done is counted (Add) by whoever starts it, before the go statement - never by itself", 2)
+	res.rule("C19-R10", "no function literal that runs later (go, defer in a loop, time.AfterFunc, stored) captures a variable of the enclosing for/range statement: below Go 1.22 there is one such variable per loop", 1)
+	res.rule("C19-R9", "a package-level variable that is written after package initialisation is accessed only through sync/atomic or under a package-level lock (a lock of a stream- or request-scoped object does not order accesses from two such objects)", 1)
 	res.rule("C19-R4", "post-construction writes to fields of mutex-less types are atomic or confined (frozen table)", 5)
 
 	lc := p.lockContext()
@@ -876,6 +878,8 @@ func checkC19(p *Prog, res *Result, tier string) {
 	checkSelfDeadlock(p, p.lockContext(), res, "C19-R5")
 	checkLockPairing(p, res, "C19-R5")
 	checkAddBeforeGo(p, res, "C19-R8")
+	checkPackageVariables(p, res, "C19-R9")
+	checkLoopVarCapture(p, res, "C19-R10")
 	checkSharedAppend(p, res, "C19-R7")
 
 	// ---- R6: shared batches are read-only (C05-R8) ----
@@ -1931,5 +1935,333 @@ func checkAddBeforeGo(p *Prog, res *Result, rule string) {
 	}
 	if n == 0 {
 		res.ok(rule, "goroutines with a deferred WaitGroup.Done", "-", "none is started with go")
+	}
+}
+
+// checkPackageVariables (C19-R9): a package-level variable of the repository that is written after package
+// initialisation is shared by every goroutine of the process - every stream, every request. Such a variable is touched
+// only through sync/atomic, or with a lock held that is itself package-level (a mutex variable, or a field of a
+// package-level object). A lock that belongs to a request- or stream-scoped object orders nothing between two such
+// objects.
+func checkPackageVariables(p *Prog, res *Result, rule string) {
+	type access struct {
+		ins    ssa.Instruction
+		fn     *ssa.Function
+		write  bool
+		atomic bool
+	}
+	inInit := func(f *ssa.Function) bool {
+		for g := f; g != nil; g = g.Parent() {
+			if g.Name() == "init" || strings.HasPrefix(g.Name(), "init#") {
+				return true
+			}
+		}
+		return false
+	}
+	byGlobal := map[*ssa.Global][]access{}
+	var order []*ssa.Global
+	for _, f := range p.AllFuncs {
+		if f.Pkg == nil || !strings.HasPrefix(f.Pkg.Pkg.Path(), modPath) || f.Blocks == nil {
+			continue
+		}
+		for _, b := range f.Blocks {
+			for _, ins := range b.Instrs {
+				var ops [8]*ssa.Value
+				for _, op := range ins.Operands(ops[:0]) {
+					g, ok := (*op).(*ssa.Global)
+					if !ok || g.Pkg == nil || !strings.HasPrefix(g.Pkg.Pkg.Path(), modPath) {
+						continue
+					}
+					a := access{ins: ins, fn: f}
+					switch x := ins.(type) {
+					case *ssa.Store:
+						if x.Addr != ssa.Value(g) {
+							continue // the address stored somewhere: not followed
+						}
+						a.write = true
+					case *ssa.UnOp:
+						if x.Op != token.MUL {
+							continue
+						}
+					case ssa.CallInstruction:
+						n, isA := isAtomicCall(x)
+						if !isA {
+							continue
+						}
+						a.atomic = true
+						a.write = !strings.HasPrefix(n, "Load")
+					default:
+						continue
+					}
+					if _, seen := byGlobal[g]; !seen {
+						order = append(order, g)
+					}
+					byGlobal[g] = append(byGlobal[g], a)
+				}
+			}
+		}
+	}
+	sort.Slice(order, func(i, j int) bool { return order[i].Pos() < order[j].Pos() })
+	// is a package-level lock held at ins? (Lock/RLock on a mutex that is a package variable or a field path of one,
+	// dominating, not released in between)
+	type glock struct {
+		ins      ssa.Instruction
+		kind     string
+		key      string
+		deferred bool
+	}
+	rootedInGlobal := func(v ssa.Value) (string, bool) {
+		path := ""
+		for d := 0; d < 6; d++ {
+			switch x := strip(v).(type) {
+			case *ssa.Global:
+				return x.Pkg.Pkg.Path() + "." + x.Name() + path, true
+			case *ssa.FieldAddr:
+				path = "." + fieldOf(x).Name() + path
+				v = x.X
+			case *ssa.UnOp:
+				if x.Op != token.MUL {
+					return "", false
+				}
+				v = x.X
+			default:
+				return "", false
+			}
+		}
+		return "", false
+	}
+	glocksIn := func(f *ssa.Function) []glock {
+		var out []glock
+		for _, c := range callsIn(f) {
+			sc := c.Common().StaticCallee()
+			if sc == nil || sc.Signature.Recv() == nil || len(c.Common().Args) == 0 {
+				continue
+			}
+			rt := sc.Signature.Recv().Type()
+			if !(isNamed(rt, "sync", "Mutex") || isNamed(rt, "sync", "RWMutex")) {
+				continue
+			}
+			switch sc.Name() {
+			case "Lock", "RLock", "Unlock", "RUnlock":
+			default:
+				continue
+			}
+			if k, ok := rootedInGlobal(c.Common().Args[0]); ok {
+				_, isDefer := c.(*ssa.Defer)
+				out = append(out, glock{c.(ssa.Instruction), sc.Name(), k, isDefer})
+			}
+		}
+		return out
+	}
+	globalLockHeld := func(f *ssa.Function, ins ssa.Instruction, excl bool) bool {
+		ls := glocksIn(f)
+		for _, l := range ls {
+			if l.deferred || (l.kind != "Lock" && (excl || l.kind != "RLock")) || !instrDominates(l.ins, ins) {
+				continue
+			}
+			released := false
+			for _, u := range ls {
+				if u.key == l.key && !u.deferred && (u.kind == "Unlock" || u.kind == "RUnlock") && instrDominates(l.ins, u.ins) && instrDominates(u.ins, ins) {
+					released = true
+				}
+			}
+			if !released {
+				return true
+			}
+		}
+		return false
+	}
+	// sync.Once: the function handed to Once.Do runs once, before any Do returns; an access after a Do (directly, or
+	// through a function all of whose paths call Do) is ordered after it.
+	isOnceDo := func(c ssa.CallInstruction) bool {
+		sc := c.Common().StaticCallee()
+		return sc != nil && sc.Signature.Recv() != nil && sc.Name() == "Do" && isNamed(sc.Signature.Recv().Type(), "sync", "Once")
+	}
+	insideOnce := func(f *ssa.Function) bool {
+		for g := f; g != nil; g = g.Parent() {
+			if g.Parent() == nil {
+				break
+			}
+			for _, c := range callsIn(g.Parent()) {
+				if isOnceDo(c) && len(c.Common().Args) == 2 {
+					if mc, ok := resolve(c.Common().Args[1]).(*ssa.MakeClosure); ok && mc.Fn == ssa.Value(g) {
+						return true
+					}
+					if fn, ok := resolve(c.Common().Args[1]).(*ssa.Function); ok && fn == g {
+						return true
+					}
+				}
+			}
+		}
+		return false
+	}
+	var alwaysOnce func(f *ssa.Function, d int) bool
+	alwaysOnce = func(f *ssa.Function, d int) bool {
+		if f == nil || f.Blocks == nil || d > 2 {
+			return false
+		}
+		for _, c := range callsIn(f) {
+			if _, isGo := c.(*ssa.Go); isGo {
+				continue
+			}
+			if _, isDefer := c.(*ssa.Defer); isDefer {
+				continue
+			}
+			if !(isOnceDo(c) || alwaysOnce(c.Common().StaticCallee(), d+1)) {
+				continue
+			}
+			all := true
+			for _, b := range f.Blocks {
+				if ret, ok := b.Instrs[len(b.Instrs)-1].(*ssa.Return); ok && !instrDominates(c.(ssa.Instruction), ret) {
+					all = false
+				}
+			}
+			if all {
+				return true
+			}
+		}
+		return false
+	}
+	afterOnce := func(f *ssa.Function, ins ssa.Instruction) bool {
+		for _, c := range callsIn(f) {
+			if _, isGo := c.(*ssa.Go); isGo {
+				continue
+			}
+			if _, isDefer := c.(*ssa.Defer); isDefer {
+				continue
+			}
+			if (isOnceDo(c) || alwaysOnce(c.Common().StaticCallee(), 0)) && instrDominates(c.(ssa.Instruction), ins) {
+				return true
+			}
+		}
+		return false
+	}
+	for _, g := range order {
+		accs := byGlobal[g]
+		lateWrite := false
+		for _, a := range accs {
+			if a.write && !inInit(a.fn) {
+				lateWrite = true
+			}
+		}
+		if !lateWrite {
+			continue // written during package initialisation only: read-only afterwards
+		}
+		n := 0
+		for _, a := range accs {
+			if inInit(a.fn) {
+				continue
+			}
+			n++
+			kind := "read"
+			if a.write {
+				kind = "write"
+			}
+			construct := fmt.Sprintf("package variable %s.%s: %s in %s #%d", g.Pkg.Pkg.Name(), g.Name(), kind, funcName(a.fn), n)
+			switch {
+			case a.atomic:
+				res.ok(rule, construct, p.pos(a.ins.Pos()), "sync/atomic")
+			case globalLockHeld(a.fn, a.ins, a.write):
+				res.ok(rule, construct, p.pos(a.ins.Pos()), "under a package-level lock")
+			case insideOnce(a.fn):
+				res.ok(rule, construct, p.pos(a.ins.Pos()), "inside the function of a sync.Once")
+			case !a.write && afterOnce(a.fn, a.ins):
+				res.ok(rule, construct, p.pos(a.ins.Pos()), "read after the sync.Once that initialises it")
+			default:
+				res.bad(rule, construct, p.pos(a.ins.Pos()), "a package-level variable that is written after initialisation is accessed without sync/atomic and without a package-level lock: it is shared by all requests and streams of the process, and a lock of one stream or one request object orders nothing between two of them (lost updates, repeated values)")
+			}
+		}
+	}
+}
+
+// checkLoopVarCapture (C19-R10): the module declares a Go version below 1.22, so the variables of a for / range
+// statement are one variable per loop, not per iteration. A function literal made in the loop body that refers to such
+// a variable and runs later - started with go, deferred, handed to time.AfterFunc, stored - sees whatever the loop
+// wrote last (and races with the loop if it is still running). In SSA the captured variable is an Alloc that lies
+// outside the loop and is stored to inside it.
+func checkLoopVarCapture(p *Prog, res *Result, rule string) {
+	n, bad := 0, 0
+	for _, f := range p.AllFuncs {
+		if f.Pkg == nil || f.Blocks == nil || !strings.HasPrefix(f.Pkg.Pkg.Path(), modPath) {
+			continue
+		}
+		for _, b := range f.Blocks {
+			for _, ins := range b.Instrs {
+				mc, ok := ins.(*ssa.MakeClosure)
+				if !ok {
+					continue
+				}
+				loop := loopOf(b)
+				if loop == nil {
+					continue
+				}
+				// does the literal run later?
+				later := ""
+				var uses func(v ssa.Value, d int)
+				uses = func(v ssa.Value, d int) {
+					if v.Referrers() == nil || d > 2 {
+						return
+					}
+					for _, ref := range *v.Referrers() {
+						switch u := ref.(type) {
+						case *ssa.Go:
+							later = "started with go"
+						case *ssa.Defer:
+							if u.Common().Value == v && loopOf(u.Block()) != nil {
+								later = "deferred inside the loop"
+							}
+						case *ssa.Call:
+							if u.Common().Value == v {
+								continue // called here
+							}
+							sc := u.Common().StaticCallee()
+							if sc != nil && sc.Pkg != nil && sc.Pkg.Pkg.Path() == "time" && sc.Name() == "AfterFunc" {
+								later = "handed to time.AfterFunc"
+							} else if sc != nil && syncHigherOrder[funcName(sc)] {
+								continue
+							} else if sc != nil && sc.Blocks != nil && strings.HasPrefix(sc.Pkg.Pkg.Path(), modPath) {
+								// a repository function that is handed the literal: does it start it?
+								for i, a := range u.Common().Args {
+									if a == v && i < len(sc.Params) {
+										uses(sc.Params[i], d+1)
+									}
+								}
+							}
+						case *ssa.Store:
+							if u.Val == v {
+								later = "stored"
+							}
+						case *ssa.MakeInterface, *ssa.ChangeType:
+							uses(u.(ssa.Value), d+1)
+						}
+					}
+				}
+				uses(mc, 0)
+				if later == "" {
+					continue
+				}
+				n++
+				for _, bnd := range mc.Bindings {
+					al, ok := bnd.(*ssa.Alloc)
+					if !ok || loop[al.Block()] {
+						continue // a variable declared inside the body: one per iteration
+					}
+					written := false
+					for _, ref := range *al.Referrers() {
+						if st, ok := ref.(*ssa.Store); ok && st.Addr == ssa.Value(al) && loop[st.Block()] {
+							written = true
+						}
+					}
+					if !written {
+						continue
+					}
+					bad++
+					res.bad(rule, fmt.Sprintf("%s: function literal #%d captures loop variable %s", funcName(f), n, al.Comment), p.pos(mc.Fn.Pos()), "a function literal that runs later ("+later+") refers to a variable of the enclosing loop; the module's Go version is below 1.22, so there is one such variable for the whole loop: every literal sees the value of the last iteration (and reads it while the loop may still be writing it)")
+				}
+			}
+		}
+	}
+	if bad == 0 {
+		res.ok(rule, "function literals made in loops", "-", fmt.Sprintf("%d literal(s) that run later, none refers to a per-loop variable", n))
 	}
 }
